@@ -64,4 +64,109 @@ theorem foldl_bytes (k : Nat) : ∀ (v a : Nat),
 theorem fromBytesBE_toBytesBE (k v : Nat) : fromBytesBE (toBytesBE k v) = v % 256 ^ k := by
   simp [fromBytesBE, foldl_bytes]
 
+/-! ### unpadded decimal numbers and the timedelta text -/
+
+theorem isDigitC_digitChar (d : Nat) (h : d < 10) : isDigitC (digitChar d) = true := by
+  simp [isDigitC, digitVal_digitChar d h]
+
+theorem natDigits_all_digits (n : Nat) : ∀ c ∈ natDigits n, isDigitC c = true := by
+  induction n using Nat.strongRecOn with
+  | _ n ih =>
+    rw [natDigits]
+    split
+    · intro c hc; simp at hc; subst hc; exact isDigitC_digitChar n (by omega)
+    · intro c hc
+      rw [List.mem_append] at hc
+      rcases hc with hc | hc
+      · exact ih (n / 10) (by omega) c hc
+      · simp at hc; subst hc; exact isDigitC_digitChar _ (Nat.mod_lt _ (by decide))
+
+theorem foldl_parseStep_natDigits (n : Nat) : ∀ a : Nat, (natDigits n).foldl parseStep (some a) = some (a * 10 ^ (natDigits n).length + n) := by
+  induction n using Nat.strongRecOn with
+  | _ n ih =>
+    intro a
+    rw [natDigits]
+    split
+    · rename_i h
+      simp [parseStep, digitVal_digitChar n h]
+    · rename_i h
+      rw [List.foldl_append, ih (n / 10) (by omega)]
+      simp only [List.foldl_cons, List.foldl_nil, parseStep, digitVal_digitChar (n % 10) (Nat.mod_lt _ (by decide)),
+        List.length_append, List.length_cons, List.length_nil, Nat.pow_succ]
+      congr 1
+      have := Nat.div_add_mod n 10
+      generalize 10 ^ (natDigits (n / 10)).length = p
+      rw [Nat.add_mul, Nat.mul_assoc]
+      omega
+
+theorem parseNat_natDigits (n : Nat) : parseNat (natDigits n) = some n := by
+  simp [parseNat, foldl_parseStep_natDigits]
+
+theorem takeWhile_natDigits (n : Nat) (c : Char) (rest : List Char) (hc : isDigitC c = false) :
+    (natDigits n ++ c :: rest).takeWhile isDigitC = natDigits n ∧ (natDigits n ++ c :: rest).dropWhile isDigitC = c :: rest := by
+  have hall := natDigits_all_digits n
+  generalize natDigits n = l at hall
+  induction l with
+  | nil => simp [hc]
+  | cons x xs ih =>
+    have hx : isDigitC x = true := hall x (by simp)
+    have := ih (fun c hc => hall c (by simp [hc]))
+    simp [hx, this]
+
+theorem takeWhile_natDigits_end (n : Nat) :
+    (natDigits n).takeWhile isDigitC = natDigits n ∧ (natDigits n).dropWhile isDigitC = [] := by
+  have hall := natDigits_all_digits n
+  generalize natDigits n = l at hall
+  induction l with
+  | nil => simp
+  | cons x xs ih =>
+    have hx : isDigitC x = true := hall x (by simp)
+    have := ih (fun c hc => hall c (by simp [hc]))
+    simp [hx, this]
+
+theorem natDigits_cons (n : Nat) : ∃ x xs, natDigits n = x :: xs ∧ isDigitC x = true := by
+  have hall := natDigits_all_digits n
+  cases hl : natDigits n with
+  | nil =>
+    rw [natDigits] at hl
+    split at hl <;> simp at hl
+  | cons x xs => exact ⟨x, xs, rfl, hall x (by simp [hl])⟩
+
+theorem isDigitC_colon : isDigitC ':' = false := by decide
+theorem isDigitC_dot : isDigitC '.' = false := by decide
+theorem isDigitC_minus : isDigitC '-' = false := by decide
+
+theorem parseTdBody_shape (H M S us : Nat) (hus : us < 1000000) :
+    parseTdBody (natDigits H ++ (':' :: (natDigits M ++ (':' :: (natDigits S ++ (if us ≠ 0 then '.' :: padN 6 us else []))))))
+      = some (((H * 3600 + M * 60 + S : Nat) : Int) * 1000000 + (us : Int)) := by
+  unfold parseTdBody
+  obtain ⟨t1, d1⟩ := takeWhile_natDigits H ':' (natDigits M ++ (':' :: (natDigits S ++ (if us ≠ 0 then '.' :: padN 6 us else [])))) isDigitC_colon
+  rw [t1, d1, parseNat_natDigits]
+  simp only
+  obtain ⟨t2, d2⟩ := takeWhile_natDigits M ':' (natDigits S ++ (if us ≠ 0 then '.' :: padN 6 us else [])) isDigitC_colon
+  rw [t2, d2, parseNat_natDigits]
+  simp only
+  by_cases h0 : us = 0
+  · subst h0
+    simp only [ne_eq, not_true_eq_false, if_false, List.append_nil]
+    obtain ⟨t3, d3⟩ := takeWhile_natDigits_end S
+    rw [t3, d3, parseNat_natDigits]
+    simp
+  · simp only [ne_eq, h0, not_false_eq_true, if_true]
+    obtain ⟨t3, d3⟩ := takeWhile_natDigits S '.' (padN 6 us) isDigitC_dot
+    rw [t3, d3, parseNat_natDigits]
+    simp only
+    have hf : ((padN 6 us ++ zeros6).take 6) = padN 6 us := by
+      rw [List.take_append_of_le_length (by simp), List.take_of_length_le (by simp)]
+    rw [hf, parseNat_padN_lt 6 us (by omega)]
+
+theorem stripNeg_natDigits (n : Nat) (rest : List Char) : stripNeg (natDigits n ++ rest) = (false, natDigits n ++ rest) := by
+  obtain ⟨x, xs, hx, hd⟩ := natDigits_cons n
+  rw [hx]
+  have : x ≠ '-' := by intro h; subst h; simp [isDigitC_minus] at hd
+  simp [stripNeg, this]
+
+theorem stripNeg_minus (r : List Char) : stripNeg ('-' :: r) = (true, r) := by simp [stripNeg]
+
+
 end PonyVerif.Model.Store
